@@ -342,3 +342,28 @@ PROPS['C18'] = dict(
     level_text='Unbounded theorem: for any number of topics, any messages within the limit and every schedule of the sending goroutine, each topic\'s inbox receives exactly the messages sent on it, whole and in order, and nothing arrives on another topic; over-limit messages close the connection without partial delivery. The pure functions are compared with the real ones and real connection pairs are driven with concurrent same-topic and cross-topic senders on every check. Freedom from data races is outside what a theorem can show (partial).',
     level_note='Partial: goroutine-level races and channel time-outs are runtime behaviour the model cannot exhibit; the over-limit branch (256 MB) is proved, not exercised.',
 )
+
+PROPS['C17'] = dict(
+    props='props/C17.v',
+    models=['Frames', 'FramesCheck'],
+    harness='c17',
+    args=dict(quick=['-frames', '80', '-handshake', '30'], escalated=['-frames', '240', '-handshake', '80'], thorough=['-frames', '2500', '-handshake', '400']),
+    fingerprint_groups=['Frames'],
+    rule='(frames) two REAL EncryptedConn endpoints (real NewHandshake over net.Pipe, real ChaCha20-Poly1305) with a relay that applies one '
+         'fault at frame granularity after the handshake - bit flip at a random bit, drop, duplicate, swap with the next frame, replay of an '
+         'earlier frame, cut inside a frame - at a random frame; writes of 0, 1, 2, 1023, 1024, 1025, 2047, 2048, 2049, 3000 and random sizes; '
+         'reads with buffers of 1, 3, 4, 1000, 1024, 4096 and random sizes, interleaved with writes in the opposite direction (a partly '
+         'consumed frame while the buffers are reused); the number of bytes delivered, whether they are a prefix of the written stream and '
+         'whether a read failed are compared with Frames.read_all (M); delivered bytes that are not a prefix of the stream are a violation (V). '
+         '(handshake) an honest endpoint against a misbehaving one: honest proof, a proof the honest identity A signed for ANOTHER session (all '
+         'a man in the middle can relay), A\'s key with the attacker\'s signature, meta signed by another key, another network id, another chain '
+         'id; accepted or not and as whom, compared with Frames.accepts; accepting the session as A is a violation; non-trivial: every case',
+    modelled='hand-modelled: EncryptedConn.Write / Read (chunking, length header, frame counter as nonce, unread remainder), the acceptance '
+             'decision of NewHandshake. Ideal: the AEAD (a frame opens only under the key and nonce it was sealed with), key agreement (two key '
+             'pairs give the same secret only if they are the same pair), signatures. Not modelled: X25519 / HKDF / ChaCha20-Poly1305 themselves, '
+             'the low-order point blacklist, time-outs, the nonce wrap after 2^64 frames.',
+    assumptions=['ideal AEAD, key agreement and signatures', 'ephemeral keys are fresh per session', 'fewer than 2^64 frames per connection'],
+    trusted_base=['model/Frames.v is a hand-written mirror of p2p/encrypt.go tied by the fault-injection run on real connections'],
+    level_text='Unbounded theorems: for any writes and read buffer sizes the reader gets exactly the written stream; for ANY frame sequence an adversary can put on the wire without the session key (modification, reordering, duplication, replay, truncation, foreign frames) the reader gets a prefix of the written stream and every deviation is reported as a read error; an endpoint accepts a session as coming from an honest identity only if that identity ran this very session (no man in the middle), on the same network and chain. Real connections are fault-injected at frame level and real handshakes attacked on every check.',
+    level_note='Trusted: ideal cryptography (symbolic model), the hand-written mirror tied by correspondence. The handshake theorem is a symbolic (Dolev-Yao style) statement, not a computational one.',
+)
